@@ -114,6 +114,30 @@ theorem embedded_gate_table (key : GateKey) (t : Tab) (ht : basicDaggerF2 key = 
   rw [List.all_eq_true] at h3
   exact h3 p hp
 
+private theorem embed_local_lit : ([1, 2, 3] : List Nat).all (fun n => GateKey.all.all fun key =>
+    (placements n key.arity).all fun qs => (allPaulis n).all fun p =>
+      applyOnPauli p (embed n (dagTable key) qs) == liftP n qs p (applyOnPauli (restrictP n qs p) (dagTable key))) = true := by
+  decide +kernel
+
+/-- **Embedding acts locally, phase included** (registers of 1–3 qubits, every gate, every placement, all Paulis):
+the embedded tableau of `to_symplectic_form` changes only the factor of `P` on the gate's qubits, exactly as the
+gate's own tableau does (so `basic_gate_table` transfers to placed gates). -/
+theorem embed_local_table (n : Nat) (hn : n ∈ ([1, 2, 3] : List Nat)) (key : GateKey) (loc : Tab)
+    (hl : basicDaggerF2 key = some loc) (qs : List Nat) (hqs : qs ∈ placements n key.arity)
+    (p : PauliB) (hp : p ∈ allPaulis n) :
+    applyOnPauli p (embed n loc qs) = liftP n qs p (applyOnPauli (restrictP n qs p) loc) := by
+  rw [basicDaggerF2_eq] at hl
+  cases hl
+  have h := embed_local_lit
+  rw [List.all_eq_true] at h
+  have h2 := h n hn
+  rw [List.all_eq_true] at h2
+  have h3 := h2 key (by cases key <;> decide)
+  rw [List.all_eq_true] at h3
+  have h4 := h3 qs hqs
+  rw [List.all_eq_true] at h4
+  exact of_decide_eq_true (by simpa using h4 p hp)
+
 /-! ### phase-exact automorphism, composition rule, circuits — for every number of qubits -/
 
 /-- **Every `(r, S)` with `S` symplectic acts as a phase-exact homomorphism of the Pauli group**:
